@@ -112,7 +112,8 @@ def breach(sp, a, r):
         ops[ch[1]]['data']['dtype'] = r.choice(['<i2', '<i4', '|i1', '>i4'])
     elif a == 'channel-in-no-frame':
         n = ops[ch[0]]['data']['shape'][0]
-        ops.append(gen.channel_op('LONER', '<f4', (n,), fill={'kind': 'pos', 'tag': 9}))
+        # (half of the time under the NAME of a channel that is in a frame: they are told apart by their copy numbers)
+        ops.append(gen.channel_op('LONER' if r.random() < 0.5 else ops[ch[1]]['name'], '<f4', (n,), fill={'kind': 'pos', 'tag': 9}))
     elif a == 'channel-in-two-frames':
         ops[fr[1]]['attrs']['channels']['$tuple'].append({'$ref': ch[1]})
     elif a == 'non-uniform-index':
